@@ -4,13 +4,15 @@
      "sets ok" | "sets DIFF ids"                     model of root fix-up/propagate_nodeset/fixup_sets/remove_unused_sets
                                                      applied to the phase-1 raw tree vs the phase-2 raw tree
      "totals ok" | "totals DIFF ids"                 model of propagate_total_memory on the phase-5 tree vs the final dump
+     "removal ok" | "removal DIFF"                   model of hwloc_filter_bridges + remove_empty on the phase-3 tree vs the phase-4 tree
    other lines are echoed *)
 let show ls = Stdlib.String.concat "|" (Stdlib.List.map (fun l -> Stdlib.String.concat "," (Stdlib.List.map (fun i -> string_of_int (int_of_n i)) l)) ls)
 let ids l = Stdlib.String.concat "," (Stdlib.List.map (fun i -> string_of_int (int_of_n i)) l)
 let phase_of head =
   let h = kv_tbl (split_on ' ' head) in
   match Stdlib.Hashtbl.find_opt h "phase" with Some p -> int_of_string p | None -> 0
-let p1 = ref None and p5 = ref None
+let p1 = ref None and p5 = ref None and p3 = ref None
+let contains s sub = let n = Stdlib.String.length s and m = Stdlib.String.length sub in let rec go i = i + m <= n && (Stdlib.String.sub s i m = sub || go (i + 1)) in go 0
 let () =
   read_blocks stdin
     (fun lines ->
@@ -23,6 +25,12 @@ let () =
                              | Some l -> print_endline ("sets DIFF " ^ ids l)
                              | None -> print_endline "sets DIFF tree")
                | None -> ()); p1 := None
+       | 3 -> let nv = ref [] in
+              Stdlib.Array.iteri (fun i l -> if contains l "st=\"NVSwitch\"" then nv := n_of_int i :: !nv) p.raw_objs;
+              p3 := Some (p.pd, !nv)
+       | 4 -> (match !p3 with
+               | Some (d3, nv) -> print_endline (if removal_agrees d3 p.pd nv then "removal ok" else "removal DIFF")
+               | None -> ()); p3 := None
        | 5 -> p5 := Some p.pd
        | 0 ->
          (match wf_check p.pd with
@@ -37,4 +45,4 @@ let () =
                         | None -> print_endline "totals DIFF tree")
           | None -> ()); p5 := None
        | _ -> ())
-    (fun l -> if l = "new rc=0" then (p1 := None; p5 := None); print_endline l)
+    (fun l -> if l = "new rc=0" then (p1 := None; p5 := None; p3 := None); print_endline l)
